@@ -105,6 +105,41 @@ def _model(fn, vals):
     raise ValueError(fn)
 
 
+def _sums(clean):
+    """the sums a faithful implementation may compute over floats: Python's builtin sum (compensated
+    since 3.12), a plain left-to-right loop, math.fsum - they differ only by rounding, which is not
+    something the statement ("the textbook function") decides"""
+    out = [sum(clean)]
+    if any(isinstance(x, float) for x in clean):
+        t = 0
+        for x in clean:
+            t = t + x
+        out.append(t)
+        try:
+            out.append(math.fsum(clean))
+        except Exception:
+            pass
+    return out
+
+
+def _alternatives(fn, vals):
+    """every value the textbook function may take for this group (rounding variants only)"""
+    clean = [v for v in vals if v is not None]
+    base = _model(fn, vals)
+    if fn == "sum":
+        return _sums(clean)
+    if fn == "mean" and clean:
+        try:
+            return [s / len(clean) for s in _sums(clean)]
+        except Exception:
+            return [base]
+    return [base]
+
+
+def _close_any(a, alts, fn):
+    return any(_close(a, b, fn) for b in alts)
+
+
 def _close(a, b, fn):
     if a is None or b is None:
         return a is None and b is None
@@ -233,7 +268,7 @@ def evaluate(trace):
                     col = rc[nk + pos]
                     for g, (k, idxs) in enumerate(glist):
                         want = _model(a, [vcols[j][i] for i in idxs])
-                        if not _close(col[g], want, a):
+                        if not _close_any(col[g], _alternatives(a, [vcols[j][i] for i in idxs]), a):
                             add("C12/wrong-value", "%s of column %d for group %r is %r, the textbook value is %r" % (a, j, k, col[g], want), "value:" + a)
                             break
                     if viols:
@@ -262,6 +297,12 @@ def evaluate(trace):
             vec = S.Vector(vals)
             for a in ("sum", "mean", "min", "max", "stdev"):
                 want = _model(a, vals)
+                try:
+                    # "agree with aggregating that column as a single group": ask the library itself
+                    one = S.Table([S.Vector([0] * len(vals), name="g"), S.Vector(vals, name="v")])
+                    want = list(one.aggregate(over="g", **{a + "_over": "v"}).cols()[1])[0]
+                except Exception as ex:
+                    ex = None
                 try:
                     got = getattr(vec, a)()
                 except Exception as ex:
@@ -382,10 +423,11 @@ class C12H(Oracle):
                 for g, (k, idxs) in enumerate(glist):
                     try:
                         want = _model(a, [vals[i] for i in idxs])
+                        alts = _alternatives(a, [vals[i] for i in idxs])
                     except Exception as ex:
                         ex = None
                         return viols
-                    if not _close(col[g], want, a):
+                    if not _close_any(col[g], alts, a):
                         viols.append(Violation("C12", "C12/wrong-value", "aggregate inside a history: %s for group %r is %r, the textbook value over the current contents is %r" % (a, k, col[g], want), dict(sig, how="value:" + a)))
                         return viols
             for pos, (a, (nm, f)) in enumerate(zip(applies, ctx.ffuncs)):
